@@ -53,24 +53,32 @@ let tracebuf_mode () =
   let hdr = words (input_line stdin) in
   let np, npush = match hdr with ["TB"; a; b] -> ios a, ios b | _ -> failwith "bad header" in
   let progs = List.init np (fun _ -> range_n 0 npush) in
-  let rounds = ref [] and complete = ref false and nel = ref 0 in
+  let rounds = ref [] and quiet = ref [] and complete = ref false and nel = ref 0 and nrounds = ref 0 in
   (try while true do
       match words (input_line stdin) with
-      | "b" :: n :: e :: els ->
+      | (("b" | "Q") as tag) :: n :: e :: els ->
         let b = List.rev (List.rev_map (fun t ->
             let i = String.index t '.' in
             let p = ios (String.sub t 0 i) and s = ios (String.sub t (i + 1) (String.length t - i - 1)) in
             incr nel;
             if p < 0 || s < 0 then (nat_of_int (np + 1), N0) else (nat_of_int p, n_of_int s)) els) in
-        rounds := ((n_of_int (ios n), e = "1"), b) :: !rounds
+        rounds := ((n_of_int (ios n), e = "1"), b) :: !rounds;
+        if tag = "Q" then quiet := (!nrounds, ((n_of_int (ios n), e = "1"), b)) :: !quiet;
+        incr nrounds
       | ["END"] -> complete := true
       | _ -> ()
     done with End_of_file -> ());
   let rounds = List.rev !rounds in
   let batches = List.rev (List.rev_map snd rounds) in
   let ok1 = tb_accept progs batches and ok2 = tb_accept_obs rounds in
+  let quiet = List.rev !quiet in
+  let ok3 = tb_accept_quiet (List.map snd quiet) in
   if not !complete then print_endline "reject trace-incomplete"
-  else if ok1 && ok2 then Printf.printf "accept rounds=%d elements=%d\n" (List.length rounds) !nel
+  else if ok1 && ok2 && ok3 then Printf.printf "accept rounds=%d quiescent_rounds=%d elements=%d\n" (List.length rounds) (List.length quiet) !nel
+  else if not ok3 then begin
+    let (i, ((n, e), b)) = List.find (fun (_, r) -> not (round_exact r)) quiet in
+    Printf.printf "reject quiescent round %d: size()=%d empty()=%b but consume() returned %d elements\n" i (int_of_n n) e (List.length b)
+  end
   else begin
     (* locate the failure with the same extracted functions, round by round *)
     let rec walk i rem = function
